@@ -447,7 +447,10 @@ def run(ctx):
     traces = pmap(run_case, cases, procs=PROCS)
     judge(ctx, cases, traces, "free-form pages", drift=False)
     # scale: more regions than a 15- / 16-bit index can address
-    scases = [{"n": n, "seed": ctx.seed + n, "scale": True} for n in ([40000] if quick else [40000, 70000, 33000])]
+    # (the naive sorter holds n x n matrices: 5.5 GB of resident memory at n = 20 000, about 21 GB at 40 000; the former thorough case
+    # n = 70 000 - beyond a 16-bit index - needs more than the 62 GB of this machine and was killed by the kernel's OOM killer in
+    # the first thorough run after round 7 (2026-10-05 16:07), taking the check with it: a size above 65 535 cannot be run here)
+    scases = [{"n": n, "seed": ctx.seed + n, "scale": True} for n in ([33000] if quick else [33000, 40000, 46000])]
     straces = [run_scale(c) for c in scases]
     judge(ctx, scases, straces, "pages of tens of thousands of regions", count=False, drift=False)
     for c in scases:
